@@ -88,15 +88,19 @@ func (m *vpStopMon) finalChecks(e *kvElection, st *vpStore, kv *vpKV, cb *vpCall
 // vpH_C09_T_stop_leader: a heartbeating leader is stopped (every variant) at a symbolic instant and at every
 // store-operation leg of that instant (before issue, between issue and application, between application
 // and response, after the response).
-func vpH_C09_T_stop_leader() {
-	tm := vpTimings[0]
+func vpH_C09_T_stop_leader() { vpC09StopLeader(vpTimings[0], 2) }
+
+// thorough: the H=4s configuration (time-out H/2) over 3.5 heartbeats
+func vpH_C09_T_stop_leader_slow() { vpC09StopLeader(vpTimings[1], 3) }
+
+func vpC09StopLeader(tm vpTiming, beats int) {
 	variant := vpChoose("variant", vpStopVariants)
 	s := vpLeadingInstance(tm, 0, func(cfg *ElectionConfig) { cfg.Metrics = &vpMetrics{} })
 	s.kv.ackYield = true
 	mon := &vpStopMon{}
 	mon.watch(s.e.cfg.Metrics.(*vpMetrics), nil)
-	mon.stopAt(s.e, s.st, s.cb, variant, "stop-at", 2*tm.H+tm.H/2)
-	time.Sleep(2*tm.H + tm.H/2 + 6*time.Second)
+	mon.stopAt(s.e, s.st, s.cb, variant, "stop-at", time.Duration(beats)*tm.H+tm.H/2)
+	time.Sleep(time.Duration(beats)*tm.H + tm.H/2 + 6*time.Second)
 	vpQuiesce()
 	vpCover("C09.stop-leader")
 	mon.finalChecks(s.e, s.st, s.kv, s.cb, variant, true)
